@@ -266,31 +266,48 @@ Theorem C01_converges_refuted_unnamed_fks :
 Proof. exists w_unnamed_fks. eexists. split; [vm_compute; reflexivity|]. vm_compute. discriminate. Qed.
 Print Assumptions C01_converges_refuted_unnamed_fks.
 
-(** CHECK "(a > 0) AND (a < 9)": check() prints it unwrapped, SQLite rejects the statement;
-    the wrapped spelling "((a > 0) AND (a < 9))" is within [supported] *)
+(** CHECK "(a > 0) AND (a < 9)".  FIXED in the Go code (fix "sqlite planner wraps a CHECK expression like
+    (a) AND (b) in parentheses", known finding C01-check-parens): check() now prints
+    sqlx.MayWrap(TrimSpace(expr)), and the former witness is inside [supported], so it converges by
+    [C01_converges_supported].  The second theorem is about the OLD code ([check_sql_old]: the first and last
+    byte test): it printed this expression unwrapped, which SQLite rejects. *)
 Definition ck_expr : str := [40;97;32;62;32;48;41;32;65;78;68;32;40;97;32;60;32;57;41]%N.
 Definition w_check_parens : xschema := [tbl n_t [col n_a T_int 2 true] None [] [] [mkCheck [] ck_expr]].
-Definition w_check_wrapped : xschema := [tbl n_t [col n_a T_int 2 true] None [] [] [mkCheck [] (40 :: ck_expr ++ [41])%N]].
-Theorem C01_converges_refuted_check_parens :
-  exists B B', apply_plan nm empty_db B = Some (Err ESyntax) /\ supported empty_db B' = true /\
-               (forall t t', In t B -> In t' B' -> t_cols (x_t t) = t_cols (x_t t')).
+Theorem C01_converges_check_parens_fixed :
+  supported empty_db w_check_parens = true /\
+  exists d', apply_plan nm empty_db w_check_parens = Some (Ok d') /\ synced nm d' w_check_parens.
 Proof.
-  exists w_check_parens, w_check_wrapped. split; [vm_compute; reflexivity|]. split; [vm_compute; reflexivity|].
-  intros t t' [<-|[]] [<-|[]]. reflexivity.
+  assert (S : supported empty_db w_check_parens = true) by (vm_compute; reflexivity).
+  split; [exact S|]. destruct (converges_supported nm empty_db w_check_parens S) as [p [d' [P [E Y]]]].
+  exists d'. split; [|exact Y]. unfold apply_plan. rewrite P, E. reflexivity.
 Qed.
-Print Assumptions C01_converges_refuted_check_parens.
+Print Assumptions C01_converges_check_parens_fixed.
+Theorem C01_check_parens_old_code_refuted :
+  is_wrapped (check_sql_old ck_expr) = false /\ is_wrapped (check_sql ck_expr) = true /\
+  (forall e, check_sql e = may_wrap (trim_space e)).
+Proof. split; [vm_compute; reflexivity|]. split; [vm_compute; reflexivity|]. intros e. reflexivity. Qed.
+Print Assumptions C01_check_parens_old_code_refuted.
 
-(** a current table with an inline UNIQUE (c) constraint, a desired table without it: the plan is
-    DROP INDEX t_c, which does not exist *)
+(** a current table with an inline UNIQUE (c) constraint, a desired table without it.  FIXED in the Go code
+    (fix "sqlite planner rebuilds the table when the dropped index backs an inline UNIQUE constraint", known
+    findings C01-drop-inline-unique = C17-autoindex-drop): [alterable] now sends the drop of a
+    sqlite_autoindex_* index to the rebuild, and the former witness converges.  The second theorem is about
+    the OLD code: its plan was DROP INDEX t_c, which does not exist.  (Current databases with inline UNIQUE
+    constraints are still outside [supported]; the engine and oracle stages cover them observationally.) *)
 Definition w_unique_db : db :=
   mkDB [mkCT (mkX (mkTable n_t false false [col n_c T_int 2 true] None [] [] []) []) [[n_c]] []] false false.
 Definition w_unique_B : xschema := [tbl n_t [col n_c T_int 2 true] None [] [] []].
-Theorem C01_converges_refuted_drop_unique :
-  exists d B, (forall bx, In bx B -> desired_ok_b bx = true) /\ apply_plan nm d B = Some (Err ENoSuchIndex).
+Theorem C01_converges_drop_unique_fixed :
+  exists d', apply_plan nm w_unique_db w_unique_B = Some (Ok d') /\ synced nm d' w_unique_B /\
+             map ct_uniques (db_tables d') = [[]].
 Proof.
-  exists w_unique_db, w_unique_B. split; [intros bx [<-|[]]; vm_compute; reflexivity|]. vm_compute. reflexivity.
+  eexists. split; [vm_compute; reflexivity|]. split; vm_compute; reflexivity.
 Qed.
-Print Assumptions C01_converges_refuted_drop_unique.
+Print Assumptions C01_converges_drop_unique_fixed.
+Theorem C01_drop_unique_old_code_refuted :
+  exec_all w_unique_db [SDropIndex (n_t ++ [95]%N ++ n_c)] = Err ENoSuchIndex.
+Proof. vm_compute. reflexivity. Qed.
+Print Assumptions C01_drop_unique_old_code_refuted.
 
 (** an index name that moves to a table inspected earlier: CREATE INDEX i ON a before DROP INDEX i *)
 Definition n_z : str := [122]%N.
